@@ -912,7 +912,14 @@ func (e *Engine) binop(op token.Token, xt types.Type, x, y Value, yt types.Type)
 			if signed {
 				return Bin(OpSRem, a, b)
 			}
-			return Bin(OpURem, a, b)
+			r := Bin(OpURem, a, b)
+			if !r.IsConst() {
+				// valid lemmas about unsigned remainder (b != 0 on this path): help
+				// back ends that bit-blast the divider
+				e.addPC(Bin(OpULt, r, b))
+				e.addPC(Bin(OpULe, r, a))
+			}
+			return r
 		case token.AND:
 			return Bin(OpBAnd, a, b)
 		case token.OR:
